@@ -645,9 +645,27 @@ func (c *Config) serverInit(originalConfig *Config) {
 		originalConfig.mutex.RLock()
 		c.sessionTicketKeys = originalConfig.sessionTicketKeys
 		originalConfig.mutex.RUnlock()
-	} else {
-		c.sessionTicketKeys = []ticketKey{ticketKeyFromBytes(c.SessionTicketKey)}
+		if len(c.sessionTicketKeys) != 0 {
+			return
+		}
+		// The original configuration has no ticket keys (its tickets are
+		// disabled): this configuration needs a key of its own, and a
+		// SessionTicketKey that is still all zero is not one.
+		isZero := true
+		for _, b := range c.SessionTicketKey {
+			if b != 0 {
+				isZero = false
+				break
+			}
+		}
+		if isZero {
+			if _, err := io.ReadFull(c.rand(), c.SessionTicketKey[:]); err != nil {
+				c.SessionTicketsDisabled = true
+				return
+			}
+		}
 	}
+	c.sessionTicketKeys = []ticketKey{ticketKeyFromBytes(c.SessionTicketKey)}
 }
 
 func (c *Config) ticketKeys() []ticketKey {
